@@ -20,6 +20,7 @@ META = {
     "required_counters": ["cookie_headers_checked", "nonempty_expected"],
     "assumptions": [],
 }
+META["claim"] += " " + "Also: look-alike hosts with the domain's dot replaced, and caller cookies equal to / contained in jar cookies."
 
 DOMAINS = ["x.t", "X.T", ".x.t", "s.x.t", "y.t", "t", None]
 PROBES = ["x.t", "X.t", "s.x.t", "ax.t", "y.t", "t", "x-t", "s-x.t", "sxx.t"]
